@@ -34,4 +34,16 @@ CHECKS = {
   'note': COMMON_NOTE + 'The attribute value is trimmed before use (injectAttribute), modelled in the driver; strings.TrimSpace modelled for ASCII; tag lists containing ${...} are excluded (C15).',
   'technique': 'Coq proof (fuelled recursion refined to a declarative longest-prefix spec; accumulator invariant for the tag map) + differential correspondence through Refresh',
  },
+ 'C07': {
+  'text': 'Full on the model, float/reflect leaves as run-time-checked oracle inputs: c07_encoder_is_printer proves that the separator state machine of the JSON encoder emits exactly the compact rendering of one object (members level,time,fileLine,tag,[ctxString], context fields, fields in order, map entries sorted: c07_map_sorted) for every field tree; c07_parse_print is a round-trip theorem for a verified RFC 8259 parser (all escapes, surrogates, number grammar) over every well-formed JSON AST, hence c07_decodes: the line parses to the logged data (strings sanitised, numbers as exact tokens with c07_int_roundtrip/c07_int64_payload, nil as null, non-finite floats and marshal errors as strings, reflected values as the meaning of their json.Marshal text, which the executable check_raw establishes: c07_raw_check_sound). '
+          'Correspondence: JSONLayout.ToBytes vs the model byte for byte on events from every public constructor; the verified parser is applied to the implementation\'s bytes as the failing-input oracle.',
+  'note': COMMON_NOTE + 'Oracle inputs: strconv.FormatFloat token (recomputed independently in Python; hypothesis valid_number checked per case), json.Marshal text (hypothesis check_raw checked per case), time.Format civil fields; bit-exactness of floats rests on strconv; jsonDepth int8 wrap beyond nesting 127 is not modelled (generator stays <= 120).',
+  'technique': 'Coq proof (encoder = printer by nested induction; verified JSON parser with round-trip and prefix-stability theorems) + differential correspondence + verified-parser oracle',
+ },
+ 'C08': {
+  'text': 'Full on the model: c08_text_layout_spec (no hypothesis) proves the line is header ++ key=value tokens of context fields then fields joined by || ++ LF; c08_same_token_as_json proves each value text equals the JSON token of C07 with the quotes stripped for strings, error texts and non-finite floats and is identical otherwise (nested containers go through the proved JSON encoder); c08_no_break proves no field key/value contributes a byte < 0x20; c08_file_line(_length) give the ... + last max(W-3,0) bytes rule for every integer W. '
+          'Correspondence: TextLayout.ToBytes vs the model on the C07 event stream with W in [-5,200]; any panic or control byte before the final LF is a violation by itself.',
+  'note': COMMON_NOTE + 'Same oracle inputs as C07. Tag, context string, level name and file name are written raw by the code (and by the model); the generator keeps them free of control bytes - the property speaks about field keys and values.',
+  'technique': 'Coq proof (text encoder refined to a declarative line spec; token equality with the proved JSON printer) + differential correspondence',
+ },
 }
